@@ -343,6 +343,24 @@ pub fn exec<C: RandomizedCiphersuite>(op: &str, a: &A) -> Option<String> {
                 )
             })
         }
+        "rand_new_pkg" => {
+            // the deprecated package-based coordinator entry point
+            let vk = VerifyingKey::<C>::new(pe::<C>(a.get("vk")?)?);
+            let msg = unhx(a.get("msg")?)?;
+            let pkg = SigningPackage::new(comms("comms")?, &msg);
+            let mut rng = tape()?;
+            #[allow(deprecated)]
+            let r = RandomizedParams::<C>::new(&vk, &pkg, &mut rng);
+            f_out(r, |p| {
+                format!(
+                    "r={} rE={} rvk={}{}",
+                    hx(&p.randomizer().serialize()),
+                    se::<C>(p.randomizer_element()),
+                    se::<C>(&p.randomized_verifying_key().to_element()),
+                    used(&rng)
+                )
+            })
+        }
         "rand_sign" => {
             let msg = unhx(a.get("msg")?)?;
             let pkg = SigningPackage::new(comms("comms")?, &msg);
